@@ -39,8 +39,9 @@ use crate::no_security::EndpointSecurityInfo;
 use crate::{discovery::secure_discovery::AuthenticationStatus, security::EndpointSecurityInfo};
 
 // If remote participant does not specify lease duration, how long silence
-// until we pronounce it dead.
-const DEFAULT_PARTICIPANT_LEASE_DURATION: Duration = Duration::from_secs(60);
+// until we pronounce it dead. The default value of PID_PARTICIPANT_LEASE_DURATION
+// is {100, 0} seconds: RTPS v2.5 Table 9.14 "ParameterId mapping and default values".
+const DEFAULT_PARTICIPANT_LEASE_DURATION: Duration = Duration::from_secs(100);
 
 // How much longer to wait than lease duration before pronouncing lost.
 const PARTICIPANT_LEASE_DURATION_TOLERANCE: Duration = Duration::from_secs(0);
